@@ -257,8 +257,116 @@ def synthetic_cases(ctx, batch):
             ctx.count('synthetic_%s' % kind)
 
 
+def file_uq_blocks(name):
+    """the UQ mapping as written in the library's files (independent PyYAML parse of library.yaml and its includes)"""
+    import os, yaml, pgradd
+    root = os.path.join(os.path.dirname(pgradd.__file__), 'data', name)
+    found = []
+
+    def visit(path):
+        doc = yaml.safe_load(open(path)) or {}
+        if doc.get('UQ'):
+            found.append(doc['UQ'])
+        for inc in doc.get('include') or []:
+            visit(os.path.join(os.path.dirname(path), inc))
+    visit(os.path.join(root, 'library.yaml'))
+    return found
+
+
+def loader_checks(ctx, batch):
+    """the uncertainty block is read from the library file as written: order of the basis, matrix, DOF (Library.py, _do_load)"""
+    import numpy as np
+    from .gen import uq as genuq
+    for name in genuq.uq_libraries():
+        info = L.shipped(name)
+        blocks = file_uq_blocks(name)
+        ctx.case(None)
+        ctx.count('loader_checks')
+        inp = {'library': name, 'check': 'uq block as loaded vs as written in the file'}
+        if len(blocks) != 1:
+            ctx.violation('library loads uncertainty data although its files hold %d UQ blocks' % len(blocks), inp, 1, len(blocks))
+            continue
+        b = blocks[0]
+        if [str(x) for x in b['InvCovMat']['groups']] != info.uq['basis']:
+            ctx.violation('the uncertainty basis is not in the order of the file', inp, b['InvCovMat']['groups'][:5], info.uq['basis'][:5])
+        if not np.array_equal(np.array(b['InvCovMat']['mat'], dtype=float), np.asarray(info.uq['mat'], dtype=float)):
+            ctx.violation('the stored matrix is not the matrix of the file', inp, 'equal', 'different')
+        if b['DOF'] != info.uq['dof']:
+            ctx.violation('degrees of freedom are not those of the file', inp, b['DOF'], info.uq['dof'])
+    # a library written to scratch files and read by the real loader: unsorted basis, non-symmetric dyadic matrix
+    rng = ctx.rng
+    for k in range(ctx.n(3, 30)):
+        names = rng.sample(['C(C)(H)3', 'C(C)2(H)2', 'C(C)(H)2(Pt)', 'C(H)3(Pt)', 'O(C)(H)', 'C(C)(H)2(O)', 'CO(C)(H)', 'C(C)3(H)'], rng.randint(2, 6))
+        basis = list(names)
+        rng.shuffle(basis)
+        while len(basis) > 1 and basis == sorted(basis):
+            rng.shuffle(basis)
+        n = len(basis)
+        spec = {'k': k, 'names': names, 'basis': basis,
+                'mat': [[rng.randint(-8, 8) / 4.0 for _ in range(n)] for _ in range(n)], 'dof': rng.randint(1, 300),
+                'refs': {nm: [rng.randint(-80, 80) / 4.0, rng.randint(0, 80) / 8.0] for nm in names},
+                'rm': [rng.choice([0.75, 1.5, 2.0, 3.25]), rng.choice([0.5, 1.25])]}
+        info = scratch_library(ctx, spec)
+        if info is None:
+            continue
+        for j in range(4):
+            m = [(nm, rng.choice([1, 2, -1, 0.5, 3, -2.5])) for nm in rng.sample(names, rng.randint(1, len(names)))]
+            c = scratch_case(ctx, info, spec, m)
+            ctx.case((info.label, j), None)
+            batch.append(c)
+
+
+def scratch_library(ctx, spec):
+    """write the library described by `spec` to scratch files, read it with the real GroupLibrary.Load, compare the uq block"""
+    import os, shutil, pgradd
+    import numpy as np
+    GroupLibrary = L._imports()[0]
+    d = os.path.join(ctx.scratch, 'uqlib%d' % spec['k'])
+    os.makedirs(d, exist_ok=True)
+    shutil.copy(os.path.join(os.path.dirname(pgradd.__file__), 'data', 'GRWSurface2018', 'scheme.yaml'), os.path.join(d, 'scheme.yaml'))
+    lines = ['groups:']
+    for nm in spec['names']:
+        lines += ["    '%s':" % nm, "        'thermochem':", '            T_ref: 298.15 K', '            ND_H_ref: %r' % spec['refs'][nm][0],
+                  '            ND_S_ref: %r' % spec['refs'][nm][1]]
+    lines += ['UQ:', '    RMSE:', "        'thermochem':", '            T_ref: 298.15 K', '            ND_H_ref: %r' % spec['rm'][0],
+              '            ND_S_ref: %r' % spec['rm'][1], '    DOF:', '        %d' % spec['dof'], '    InvCovMat:',
+              "        'groups': [%s]" % ', '.join("'%s'" % b for b in spec['basis']),
+              "        'mat': [%s]" % ', '.join('[%s]' % ','.join(repr(v) for v in row) for row in spec['mat'])]
+    with open(os.path.join(d, 'library.yaml'), 'w') as f:
+        f.write('\n'.join(lines) + '\n')
+    try:
+        with L.quiet():
+            lib = GroupLibrary.Load(os.path.join(d, 'library.yaml'))
+    except Exception as e:
+        raise common.MachineryError('scratch library with uncertainty data does not load: %r' % (e,))
+    info = L.LibInfo('loaded-uq-%d' % spec['k'], lib, exact_mode=True)
+    ctx.count('loaded_scratch_libraries')
+    if (info.uq is None or info.uq['basis'] != spec['basis'] or info.uq['dof'] != spec['dof']
+            or np.asarray(info.uq['mat']).tolist() != spec['mat']):
+        ctx.violation('the uncertainty block is not loaded as written (basis order, matrix, DOF)', {'library': info.label, 'written': spec},
+                      {'basis': spec['basis'], 'dof': spec['dof']},
+                      None if info.uq is None else {'basis': info.uq['basis'], 'dof': info.uq['dof']})
+        return None
+    return info
+
+
+def scratch_case(ctx, info, spec, mapping):
+    import numpy as np
+    c = L.run_case(info, mapping, 298.15, want_se=True, full_lib=True)
+    # the oracle uses the basis and matrix AS WRITTEN, not as loaded
+    loaded = info.uq
+    info.uq = dict(loaded, basis=spec['basis'], mat=np.array(spec['mat']))
+    try:
+        oracle(ctx, c, psd=False)
+    finally:
+        info.uq = loaded
+    c.input['written'] = spec
+    return c
+
+
 def run(ctx):
     batch = []
+    loader_checks(ctx, batch)
     for fname, rec in common.load_corpus('C20'):
         ctx.count('corpus')
         replay(ctx, rec, batch)
@@ -280,6 +388,14 @@ def run(ctx):
 def replay(ctx, rec, batch=None):
     inp = rec.get('input', rec)
     before = len(ctx.violations)
+    if inp.get('check'):
+        loader_checks(ctx, [])
+        return len(ctx.violations) == before
+    if inp.get('written'):
+        info = scratch_library(ctx, inp['written'])
+        if info is not None and inp.get('mapping'):
+            scratch_case(ctx, info, inp['written'], [(nm, L.dec_num(n)) for nm, _, n in inp['mapping']])
+        return len(ctx.violations) == before
     info, mapping, T = L.rebuild(inp)
     if inp.get('extended'):
         info = extended(info) if not info.label.endswith('+extra') else info
